@@ -60,6 +60,10 @@ CLAIMED = {
         text="generated byte strings / texts / JSON values / accessor calls in batches on the ASan build with the poisoned heap: base64 (bytevector and string), quoted-printable, URI escaping (ASCII; non-ASCII is an open known finding), JSON (values of depth <= 6 with every escape class, astral characters, exponents; both json->string and string->json on Python-produced texts), UTF-8 with ranges, (scheme bytevector) accessors of every width/signedness/endianness at in-range and out-of-range offsets, (srfi 160) vectors; oracles: decode(encode(x)) = x, Python's decoder for the same format accepts the encoder output and yields x (base64, quopri, urllib, json, struct.pack), out-of-range accessor calls raise, and hostile (random / mutated) input to every decoder returns or raises without crash or timeout; exploration only",
         note="trusted: Python's codecs; JSON integral floats and integers are identified (JSON has one number type); (chibi csv) is not exercised; one open known finding (URI escaping of non-ASCII text) is excluded by construction",
         technique="round-trip and differential property-based testing against Python's reference codecs, plus fuzzing of decoders under ASan with a poisoned heap"),
+    "C20": dict(
+        text="SREs from a recursive Hypothesis grammar (depth <= 4-5: literals, strings, char sets, ranges, complements, any/nonl, seq, or, * + ? = >= **, non-greedy forms, submatches, bos/eos/bol/eol, w/nocase, w/case) plus an enumerated family of small SREs, each matched against ALL subject strings up to length 4 (quick) / 7 (thorough) over an alphabet chosen per SRE (abc / aAb / ab+newline); oracle: an independent span-set matcher in Python; checked: regexp-matches? <=> membership, regexp-matches agrees, regexp-search <=> some substring matches, overall and submatch spans delimit text matched by the corresponding subexpression, regexp-fold spans likewise; exploration only",
+        note="SREs rejected at compile time are outside the supported subset; which valid match is preferred is not asserted; regexp-fold spans are not asserted for anchored SREs; two open known findings (non-greedy repetition in whole-string mode; or of char sets starting with a complement) are excluded by construction",
+        technique="property-based differential testing against an independent reference matcher, exhaustive over subject strings up to a length bound"),
 }
 
 NOT_YET = "check not built yet in this session (planned, see DESIGN.md section 4)"
